@@ -380,7 +380,7 @@ func numericOpcodes() []string {
 	for _, n := range allNames {
 		fam, _ := familyOf(n)
 		row := operandKinds[fam]
-		if row.stub {
+		if row.stub || n == "tsp" { // tsp has its own entry: its missing padding loop masks or mimics overflows
 			continue
 		}
 		for _, k := range row.kinds {
